@@ -26,7 +26,11 @@ RULE = ("cases: tensors of order 1-6 with dims from {1,2,3,5} (size-capped), eve
         "orders inside each side (natural, reversed, shuffled; lists in natural order to reach the "
         "no-transposition path), modes REDUCED/FULL/KEEP for QR and SVD, real and complex entries, "
         "full-rank / rank-deficient / integer / zero tensors, all contraction modes with truncation disabled, "
-        "truncated SVD with a bond cap, and leg lists that are not a bipartition. "
+        "truncated SVD with a bond cap, and leg lists that are not a bipartition. Input-space audit: the optional "
+        "`mode` omitted / positional / keyword, contr_truncated_svd_splitting with both optional arguments omitted "
+        "(documented defaults), input arrays in C / Fortran order, as offset or strided views and read-only, single "
+        "precision, overall scales 1e-12 .. 1e8, NumPy integers as legs, tensor_matricization(correctly_ordered=True) "
+        "and transpose_tensor_by_leg_list called directly. "
         "non-trivial = distinct case with a non-identity leg permutation, an empty side, a wide or tall "
         "matricisation under FULL/KEEP, a rank-deficient tensor, or a rejected input")
 PARTIAL = ["numerical clauses: that Q R = M, U S Vh = M entrywise, that Q/U/Vh are isometries and S >= 0 descending is the "
@@ -94,6 +98,21 @@ def side_orders(rng, legs, k):
     return outs
 
 
+LAYOUTS = ["c", "c", "c", "f", "view", "strided", "readonly"]
+
+
+def _audit_fields(rng, case):
+    """Input-space audit (notes/C11.md): memory layout of the input array, single-precision element types,
+    how the optional `mode` argument is passed (omitted / positional / keyword), NumPy integers as legs."""
+    r = random.Random(rng.randrange(10 ** 9))      # one draw from the main stream, the rest from a private one
+    case["layout"] = r.choice(LAYOUTS)
+    case["f32"] = r.random() < 0.15
+    if case["kind"] in ("qr", "svd"):
+        case["call"] = "omit" if (case["mode"] == "reduced" and r.random() < 0.6) else r.choice(["pos", "kw"])
+    case["npint"] = r.random() < 0.15 and not case.get("aslist")
+    return case
+
+
 def gen_cases(ctx):
     rng = ctx.rng
     cases = []
@@ -118,9 +137,10 @@ def gen_cases(ctx):
                     "fill": rng.choice(["normal", "normal", "lowrank", "lowrank", "int", "zero", "dupcol"]),
                     "seed": rng.randrange(10 ** 9),
                     "aslist": rng.random() < 0.25,
-                    "scale": rng.choice([1.0, 1.0, 1.0, 1e-6, 1e3, 1e6, 1e-12])}
+                    "scale": rng.choice([1.0, 1.0, 1.0, 1e-6, 1e3, 1e6, 1e-12, 1e8, 1e-8])}
             if kind == "contr":
                 case["cap"] = rng.choice([1, 1, 2, 3])
+            _audit_fields(rng, case)
             cases.append(case)
     # natural order with lists (the `correctly_ordered` path) and single-leg KEEP, always present
     for _ in range(ctx.n(60, 300)):
@@ -162,7 +182,36 @@ def gen_cases(ctx):
 def build_tensor(case):
     t = _build_tensor(case)
     sc = case.get("scale", 1.0)
-    return t * sc if sc != 1.0 else t
+    t = t * sc if sc != 1.0 else t
+    if case.get("f32") and t.dtype.kind in "fc":
+        t = t.astype(np.complex64 if t.dtype.kind == "c" else np.float32)
+    return t
+
+
+def layout(t, case):
+    """The array object handed to the library: same values as `t`, other memory layout / flags.  The oracle
+    always compares with `t` (taken before the call), i.e. with the ORIGINAL tensor."""
+    how = case.get("layout", "c")
+    if how == "f":
+        return np.asfortranarray(t)
+    if how == "view" and t.ndim:                    # interior of a larger array: non-contiguous, offset
+        big = np.full(tuple(d + 2 for d in t.shape), 7, dtype=t.dtype)
+        sl = tuple(slice(1, d + 1) for d in t.shape)
+        big[sl] = t
+        return big[sl]
+    if how == "strided" and t.ndim:                 # every second entry along the last axis
+        big = np.full(t.shape[:-1] + (2 * t.shape[-1],), 7, dtype=t.dtype)
+        big[..., ::2] = t
+        return big[..., ::2]
+    a = t.copy()
+    if how == "readonly":
+        a.flags.writeable = False
+    return a
+
+
+def _mult(t) -> float:
+    """Tolerances are stated for double precision; single precision inputs get eps(float32)/eps(float64) ~ 1e5 more."""
+    return 1e5 if t.dtype in (np.float32, np.complex64) else 1.0
 
 
 def _build_tensor(case):
@@ -272,7 +321,19 @@ def _legs(case):
     a, b = case["a"], case["b"]
     if case.get("aslist"):
         return list(a), list(b)
+    if case.get("npint"):                           # legs computed with NumPy (np.argsort, np.arange ...)
+        return tuple(np.int64(x) for x in a), tuple(np.int64(x) for x in b)
     return tuple(a), tuple(b)
+
+
+def _call_split(fn, arg, la, lb, case):
+    """Pass the optional `mode` argument the way the case says (omitted = documented default REDUCED)."""
+    how = case.get("call", "pos")
+    if how == "omit" and case["mode"] == "reduced":
+        return fn(arg, la, lb)
+    if how == "kw":
+        return fn(arg, la, lb, mode=_mode(case["mode"]))
+    return fn(arg, la, lb, _mode(case["mode"]))
 
 
 def _mode(name):
@@ -303,6 +364,11 @@ def _tally(ctx, case, m, n):
     ctx.tally("sides", "empty-first" if not case["a"] else "empty-second" if not case["b"] else "both")
     ctx.tally("fill", case.get("fill", "-") + (":c" if case.get("complex") else ":r"))
     ctx.tally("has_dim1", 1 in case["shape"])
+    ctx.tally("layout", case.get("layout", "c"))
+    ctx.tally("precision", "single" if case.get("f32") and case.get("fill") not in ("int",) else "double")
+    ctx.tally("mode_argument", case.get("call", "-"))
+    ctx.tally("leg_type", "list" if case.get("aslist") else "np.int64" if case.get("npint") else "int")
+    ctx.tally("magnitude", f"{case.get('scale', 1.0):g}")
 
 
 # ------------------------------------------------------------------ value level of the matricisation
@@ -330,6 +396,25 @@ def _check_matidx(ctx, case, model_out):
     for ax, v in zip(b, ib):
         idx[ax] = int(v)
     want = int(np.ravel_multi_index(idx, sh)) if sh else 0
+    # other entry points of the same mechanism: the no-transposition flag (only legal for legs in natural order)
+    # and transpose_tensor_by_leg_list called directly
+    from pytreenet.util.tensor_util import transpose_tensor_by_leg_list
+    try:
+        if a + b == list(range(len(sh))):
+            ctx.tally("matricisation_entry", "correctly_ordered=True")
+            got = int(tensor_matricization(t, tuple(a), tuple(b), correctly_ordered=True)[i, j])
+            if got != want:
+                ctx.oracle_fail(case, f"tensor_matricization(correctly_ordered=True) shape={sh} out={a} in={b}: entry "
+                                      f"[{i},{j}] comes from input position {got}, expected {want}")
+        tt = transpose_tensor_by_leg_list(t, list(a), list(b))
+        ctx.tally("matricisation_entry", "transpose_tensor_by_leg_list")
+        got = int(tt[tuple(int(v) for v in ia) + tuple(int(v) for v in ib)]) if sh else int(tt)
+        if list(tt.shape) != qd + rd or got != want:
+            ctx.oracle_fail(case, f"transpose_tensor_by_leg_list shape={sh} first={a} last={b}: shape {tt.shape} "
+                                  f"(expected {qd + rd}), entry {list(map(int, ia)) + list(map(int, ib))} comes from "
+                                  f"input position {got}, expected {want}")
+    except Exception as e:          # noqa: BLE001
+        ctx.oracle_fail(case, f"matricisation entry points shape={sh} out={a} in={b} raised {type(e).__name__}: {str(e)[:100]}")
     if impl != want:
         ctx.oracle_fail(case, f"tensor_matricization shape={sh} out={a} in={b}: entry [{i},{j}] comes from input "
                               f"position {impl}, but row {i} = legs {list(map(int, ia))}, column {j} = legs "
@@ -350,7 +435,7 @@ def _case_qr(ctx, case, model_out):
     ctx.sample(case, 4)
     keep_empty = mode == "keep" and not b
     try:
-        q, r = tensor_qr_decomposition(t.copy(), qa, rb, _mode(mode))
+        q, r = _call_split(tensor_qr_decomposition, layout(t, case), qa, rb, case)
         impl = f"Q={fmt_shape(q.shape)} R={fmt_shape(r.shape)} bond={q.shape[-1]}"
     except Exception as e:          # noqa: BLE001
         impl = "error"
@@ -383,16 +468,18 @@ def _case_qr(ctx, case, model_out):
             probs.append(f"KEEP with the last leg split off: Q shape {q.shape} != input shape {t.shape}")
     if not probs:
         scale = _scale(t)
+        mult = _mult(t)
         rec = _reconstruct(q, r, a, b, len(sh))
         err = float(np.linalg.norm(rec - t))
-        if err > TOL * scale:
+        if err > TOL * mult * scale:
             probs.append(f"Q·R does not reproduce the tensor (error {err:.3e})")
         qm = q.reshape(-1, q.shape[-1])
         g = qm.conj().T @ qm
         if mode == "keep":
-            if np.linalg.norm(g @ g - g) > _iso_tol(g.shape[0]) or np.linalg.norm(g - g.conj().T) > _iso_tol(g.shape[0]):
+            if (np.linalg.norm(g @ g - g) > mult * _iso_tol(g.shape[0])
+                    or np.linalg.norm(g - g.conj().T) > mult * _iso_tol(g.shape[0])):
                 probs.append("KEEP: Q^H Q is not an orthogonal projector (Q not a partial isometry)")
-        elif np.linalg.norm(g - np.eye(g.shape[0])) > _iso_tol(g.shape[0]):
+        elif np.linalg.norm(g - np.eye(g.shape[0])) > mult * _iso_tol(g.shape[0]):
             probs.append(f"Q is not an isometry (|Q^H Q - 1| = {np.linalg.norm(g - np.eye(g.shape[0])):.3e})")
         ctx.hyp_validated += 1
     if probs:
@@ -403,6 +490,7 @@ def _case_qr(ctx, case, model_out):
 
 def _svd_checks(u, s, vh, t, sh, a, b, bu, bv, k, label):
     probs = []
+    mult = _mult(t)
     ud, vd = [sh[i] for i in a], [sh[i] for i in b]
     if list(u.shape) != ud + [bu]:
         probs.append(f"{label}: U shape {u.shape} is not u-leg dims {ud} + bond {bu}")
@@ -412,13 +500,13 @@ def _svd_checks(u, s, vh, t, sh, a, b, bu, bv, k, label):
         probs.append(f"{label}: S has shape {s.shape}, expected ({k},)")
     if probs:
         return probs
-    if not np.all(np.isfinite(s)) or np.any(s < 0) or np.any(np.diff(s) > 1e-12 * (float(s[0]) if len(s) else 0.0)):
+    if not np.all(np.isfinite(s)) or np.any(s < 0) or np.any(np.diff(s) > 1e-12 * mult * (float(s[0]) if len(s) else 0.0)):
         probs.append(f"{label}: singular values not non-negative descending: {s[:6]}")
     um = u.reshape(-1, bu)
     vm = vh.reshape(bv, -1)
-    if np.linalg.norm(um.conj().T @ um - np.eye(bu)) > _iso_tol(bu):
+    if np.linalg.norm(um.conj().T @ um - np.eye(bu)) > mult * _iso_tol(bu):
         probs.append(f"{label}: U is not an isometry")
-    if np.linalg.norm(vm @ vm.conj().T - np.eye(bv)) > _iso_tol(bv):
+    if np.linalg.norm(vm @ vm.conj().T - np.eye(bv)) > mult * _iso_tol(bv):
         probs.append(f"{label}: Vh is not an isometry (rows not orthonormal)")
     return probs
 
@@ -434,7 +522,7 @@ def _case_svd(ctx, case, model_out):
     _tally(ctx, case, m, n)
     ctx.sample(case, 4)
     try:
-        u, s, vh = tensor_svd(t.copy(), ua, vb, _mode(mode))
+        u, s, vh = _call_split(tensor_svd, layout(t, case), ua, vb, case)
         impl = f"U={fmt_shape(u.shape)} S={len(s)} Vh={fmt_shape(vh.shape)}"
     except Exception as e:          # noqa: BLE001
         impl = "error"
@@ -454,7 +542,7 @@ def _case_svd(ctx, case, model_out):
         scale = _scale(t)
         rec = _reconstruct(u[..., :k], vh[:k, ...], a, b, len(sh), mid=s)
         err = float(np.linalg.norm(rec - t))
-        if err > TOL * scale:
+        if err > TOL * _mult(t) * scale:
             probs.append(f"U[..,:k]·S·Vh[:k,..] does not reproduce the tensor (error {err:.3e})")
         ctx.hyp_validated += 1
     if probs:
@@ -477,9 +565,11 @@ def _case_contr(ctx, case, model_out):
     m_svd, m_tsvd, m_v, m_u, m_e = model_out
     no_trunc = SVDParameters(max_bond_dim=float("inf"), rel_tol=float("-inf"), total_tol=float("-inf"))
     scale = _scale(t)
-    # reference singular values from an independent matricisation
+    mult = _mult(t)
+    tol = TOL * mult
+    # reference singular values from an independent matricisation (always in double precision)
     mat = np.transpose(t, a + b).reshape(m, n)
-    s_ref = np.linalg.svd(mat, compute_uv=False)
+    s_ref = np.linalg.svd(mat.astype(complex if np.iscomplexobj(mat) else float), compute_uv=False)
     probs = []
     ud, vd = [sh[i] for i in a], [sh[i] for i in b]
     modes = {"vcontr": (ContractionMode.VCONTR, m_v), "ucontr": (ContractionMode.UCONTR, m_u),
@@ -492,7 +582,10 @@ def _case_contr(ctx, case, model_out):
         ctx.tally("observations", "zero tensor: truncation cannot be disabled, bond 1 kept")
     for name, (cm, mline) in modes.items():
         try:
-            fa, fb = contr_truncated_svd_splitting(t.copy(), ua, vb, cm, no_trunc)
+            if case.get("layout") == "f":        # keyword form of the optional arguments
+                fa, fb = contr_truncated_svd_splitting(layout(t, case), ua, vb, svd_params=no_trunc, contr_mode=cm)
+            else:
+                fa, fb = contr_truncated_svd_splitting(layout(t, case), ua, vb, cm, no_trunc)
         except Exception as e:          # noqa: BLE001
             ctx.oracle_fail(case, f"contr_truncated_svd_splitting {name} shape={sh} u={a} v={b} raised {type(e).__name__}: {str(e)[:120]}")
             return
@@ -508,7 +601,7 @@ def _case_contr(ctx, case, model_out):
             continue
         rec = _reconstruct(fa, fb, a, b, len(sh))
         prods[name] = rec
-        if np.linalg.norm(rec - t) > TOL * scale:
+        if np.linalg.norm(rec - t) > tol * scale:
             probs.append(f"{name}: the two factors do not contract to the tensor (error {np.linalg.norm(rec - t):.3e})")
         # which factor absorbed S: column norms of the first, row norms of the second factor
         ea, eb = (int(x) for x in mline.split())
@@ -516,18 +609,20 @@ def _case_contr(ctx, case, model_out):
         rn = np.linalg.norm(fb.reshape(kb, -1), axis=1)
         s0 = float(s_ref[0]) if len(s_ref) and s_ref[0] > 0 else 1.0
         # loose (a wrong absorbing factor is off by O(1) relative); sqrt amplifies round-off of tiny values
-        if (np.max(np.abs(cn - s_ref[:kb] ** (ea / 2))) > 1e-6 * s0 ** (ea / 2)
-                or np.max(np.abs(rn - s_ref[:kb] ** (eb / 2))) > 1e-6 * s0 ** (eb / 2)):
+        loose = 1e-6 * max(1.0, mult / 1e2)
+        if (np.max(np.abs(cn - s_ref[:kb] ** (ea / 2))) > loose * s0 ** (ea / 2)
+                or np.max(np.abs(rn - s_ref[:kb] ** (eb / 2))) > loose * s0 ** (eb / 2)):
             ctx.corr_fail(case, f"contr splitting {name}: model says S^{ea}/2 into U and S^{eb}/2 into Vh; "
                                 f"column norms {cn[:4]}, row norms {rn[:4]}, S {s_ref[:4]}")
     if len(prods) == 3:
         d = max(float(np.linalg.norm(prods[x] - prods["vcontr"])) for x in prods)
-        if d > TOL * scale:
+        if d > tol * scale:
             probs.append(f"contraction modes give different products (max difference {d:.3e})")
+    probs += _contr_defaults(ctx, case, t, ua, vb, s_ref, k, ud, vd, scale, mult)
     # truncated SVD with a bond cap
     cap = case["cap"]
     try:
-        u, s, vh = truncated_tensor_svd(t.copy(), ua, vb, SVDParameters(max_bond_dim=cap, rel_tol=float("-inf"),
+        u, s, vh = truncated_tensor_svd(layout(t, case), ua, vb, SVDParameters(max_bond_dim=cap, rel_tol=float("-inf"),
                                                                          total_tol=float("-inf")))
     except Exception as e:          # noqa: BLE001
         ctx.oracle_fail(case, f"truncated_tensor_svd cap={cap} shape={sh} u={a} v={b} raised {type(e).__name__}: {str(e)[:120]}")
@@ -541,17 +636,55 @@ def _case_contr(ctx, case, model_out):
         ctx.corr_fail(case, f"truncated_tensor_svd cap={cap} shape={sh} u={a} v={b}: impl [{impl}] model [{mo}]")
     q = _svd_checks(u, np.asarray(s), vh, t, sh, a, b, kept, kept, kept, f"truncated(cap={cap})")
     if not q:
-        if np.max(np.abs(np.asarray(s) - s_ref[:kept])) > 1e-9 * float(s_ref[0]):
+        if np.max(np.abs(np.asarray(s) - s_ref[:kept])) > 1e-9 * mult * float(s_ref[0]):
             q.append(f"truncated SVD keeps {np.asarray(s)[:4]} but the largest singular values are {s_ref[:kept][:4]}")
         rec = _reconstruct(u, vh, a, b, len(sh), mid=np.asarray(s))
         err = float(np.linalg.norm(rec - t))
         want = float(np.sqrt(np.sum(s_ref[kept:] ** 2)))
-        if abs(err - want) > 1e-9 * scale:
+        if abs(err - want) > 1e-9 * mult * scale:
             q.append(f"truncated SVD error {err:.6e} != weight of the discarded values {want:.6e}")
         ctx.hyp_validated += 1
     probs += q
     if probs:
         ctx.oracle_fail(case, f"splitting shape={sh} u_legs={a} v_legs={b} fill={case.get('fill')}: " + "; ".join(probs[:3]))
+
+
+def _contr_defaults(ctx, case, t, ua, vb, s_ref, k, ud, vd, scale, mult):
+    """`contr_truncated_svd_splitting(tensor, u_legs, v_legs)` with BOTH optional arguments omitted: documented
+    defaults are ContractionMode.VCONTR and SVDParameters() = (max_bond_dim 100, rel_tol 1e-15, total_tol 1e-15).
+    Oracle (reference singular values from the harness' own matricisation): the bond lies between the number of
+    values clearly above and the number not clearly below the cutoff max(1e-15*s_max, 1e-15) (at least 1, at
+    most 100), U is untouched (isometry: the values went into the SECOND factor), and the product misses the
+    tensor by exactly the weight of the discarded values."""
+    from pytreenet.util.tensor_splitting import contr_truncated_svd_splitting
+    sh, a, b = case["shape"], case["a"], case["b"]
+    try:
+        fa, fb = contr_truncated_svd_splitting(layout(t, case), ua, vb)
+    except Exception as e:          # noqa: BLE001
+        return [f"contr_truncated_svd_splitting with default arguments raised {type(e).__name__}: {str(e)[:120]}"]
+    s0 = float(s_ref[0]) if len(s_ref) else 0.0
+    cutoff = max(1e-15 * s0, 1e-15)
+    noise = 1e-13 * mult * s0                      # round-off of a singular value
+    lo = max(1, int(np.sum(s_ref > cutoff * 1.001 + noise)))
+    hi = min(100, max(1, int(np.sum(s_ref > cutoff * 0.999 - noise))))
+    kd = fa.shape[-1] if fa.ndim else -1
+    ctx.tally("default_arguments", "something discarded" if kd < k else "nothing discarded")
+    if not (lo <= kd <= hi) or list(fa.shape) != ud + [kd] or list(fb.shape) != [kd] + vd:
+        return [f"default arguments: factor shapes {fa.shape}, {fb.shape}; expected {ud}+[k], [k]+{vd} with "
+                f"{lo} <= k <= {hi} (singular values {s_ref[:6]}, cutoff {cutoff:.3e})"]
+    probs = []
+    um = fa.reshape(-1, kd)
+    if np.linalg.norm(um.conj().T @ um - np.eye(kd)) > mult * _iso_tol(kd):
+        probs.append("default arguments: the first factor is not an isometry although the default contraction mode "
+                     "(VCONTR) puts the singular values into the second factor")
+    rec = _reconstruct(fa, fb, a, b, len(sh))
+    err = float(np.linalg.norm(rec - t))
+    want = float(np.sqrt(np.sum(s_ref[kd:] ** 2)))
+    if abs(err - want) > 1e-9 * mult * scale:
+        probs.append(f"default arguments: product misses the tensor by {err:.6e}, weight of the values below the "
+                     f"default cutoff is {want:.6e}")
+    ctx.hyp_validated += 1
+    return probs
 
 
 # ------------------------------------------------------------------ invalid leg lists
